@@ -414,6 +414,12 @@ class SpyBudget(Budget):
         return r
 
 
+    def remaining(self):
+        r = super().remaining()
+        self._shared.cur.trace.append(["BR", r])      # the retry loop is expected to use consume() only
+        return r
+
+
 class SpyBreaker(CircuitBreaker):
     def __init__(self, shared, **kw):
         super().__init__(**kw)
